@@ -527,7 +527,7 @@ impl Check for C06 {
         }
     }
     fn rule(&self) -> String {
-        "each evaluation = one generated world (3-40 vertices; distance, speed-table or energy traversal; a*/dijkstra/k-shortest-paths; termination model; input plugins grid_search / load_balancer / inject / vertex_rtree / edge_rtree in a generated order; optionally a turn-delay access model, a road-class frontier model, the uuid plugin, any traversal output format incl. trees) + batch of 1-60 queries (valid, same o/d, no destination, out-of-range, missing / ill-typed origin, per-query cost parameters, grid-search, far coordinate, allowed road classes, free-text labels, values that are not JSON objects) split over 1-3 run() calls, executed on a simulated rayon pool of W in 1..8 workers with parallelism P in 1..16 (configuration and per-run override; persistence / output policies in the configuration, per run, or different for every run) under a seeded schedule (random / PCT / PCT over synchronisation events / cooperative; preemption at futex, yield, clock, sleep, file I/O, every n-th allocation and - deep build - atomic writes and loads of the code under test), compared with every query run alone. Families: schedule, faults (short writes / EINTR on the response file), energy (shared prediction caches), cli (the command-line runner: chunked query file with rows that are no query and a read that fails once; judged through the response file), noisy-neighbour (round 6: two caller threads, the first into a response file whose disk fills up or breaks and stays so - its run() may fail - the second without a file: every response of the second must be there and equal the query run alone). Round 6 knobs: two caller threads sharing the application in the plain families too, batches that mix queries with and without a user-supplied weight estimate, idle time (1 s / 1 h / 1 day) between run() calls, clock reads of up to 10 ms, spurious futex wake-ups, wall-clock steps backwards, a logger at info / debug / trace level. non-trivial = more than one response expected; distinct = distinct (batch, schedule-hash) pairs".into()
+        "each evaluation = one generated world (3-40 vertices; distance, speed-table or energy traversal; a*/dijkstra/k-shortest-paths; termination model; input plugins grid_search / load_balancer / inject / vertex_rtree / edge_rtree in a generated order; optionally a turn-delay access model, a road-class frontier model, the uuid plugin, any traversal output format incl. trees) + batch of 1-60 queries (valid, same o/d, no destination, out-of-range, missing / ill-typed origin, per-query cost parameters, grid-search, far coordinate, allowed road classes, free-text labels, values that are not JSON objects) split over 1-3 run() calls, executed on a simulated rayon pool of W in 1..8 workers with parallelism P in 1..16 (configuration and per-run override; persistence / output policies in the configuration, per run, or different for every run) under a seeded schedule (random / PCT / PCT over synchronisation events / cooperative; preemption at futex, yield, clock, sleep, file I/O, every n-th allocation and - deep build - atomic writes and loads of the code under test), compared with every query run alone. Families: schedule, faults (short writes / EINTR on the response file), energy (shared prediction caches), cli (the command-line runner: chunked query file with rows that are no query and a read that fails once; judged through the response file), noisy-neighbour (round 6: two caller threads, the first into a response file whose disk fills up or breaks and stays so - its run() may fail - the second without a file: every response of the second must be there and equal the query run alone). Round 6 knobs: two caller threads sharing the application in the plain families too, batches that mix queries with and without a user-supplied weight estimate, idle time (1 s / 1 h / 1 day) between run() calls, clock reads of up to 10 ms, spurious futex wake-ups, wall-clock steps backwards, a logger at info / debug / trace level. non-trivial = more than one response expected; distinct = distinct (batch, schedule-hash) pairs Rounds 8-9: one case in seven goes through the language-binding interface (application built from a TOML text, batches handed over and returned as JSON strings by CompassAppBindings::run_queries); in one case in five some queries are submitted again - in a later run() call or twice in a batch; every run() call of a case may ask for a parallelism of its own.".into()
     }
     fn assumptions(&self) -> Vec<String> {
         vec![
